@@ -463,7 +463,10 @@ impl SessionManager {
             "sm_untrack_all",
             &[
                 ("token", token.0 as i64),
-                ("n", by_cluster.values().map(|ips| ips.len()).sum::<usize>() as i64),
+                (
+                    "n",
+                    by_cluster.values().map(|ips| ips.len()).sum::<usize>() as i64,
+                ),
             ],
         );
         // The reverse index for this token was just drained by `remove`; no
@@ -540,7 +543,9 @@ impl SessionManager {
     /// `(token, cluster, ip)` reverse index.
     #[cfg(sozu_verif)]
     #[allow(clippy::type_complexity)]
-    pub fn verif_per_ip_tables(&self) -> (Vec<(String, IpAddr, usize)>, Vec<(usize, String, IpAddr)>) {
+    pub fn verif_per_ip_tables(
+        &self,
+    ) -> (Vec<(String, IpAddr, usize)>, Vec<(usize, String, IpAddr)>) {
         let mut counts = Vec::new();
         for (cluster, by_ip) in &self.connections_per_cluster_ip {
             for (ip, n) in by_ip {
@@ -1500,65 +1505,69 @@ impl Server {
             debug!("Received request {:?}", request);
             match request {
                 Ok(request) => {
-                #[cfg(sozu_verif)]
-                let verif_cmd = (
-                    request.id.clone(),
-                    request.content.short_name().to_owned(),
-                    QUEUE.with(|queue| queue.borrow().len()),
-                );
-                match request.content.request_type {
-                    Some(RequestType::HardStop(_)) => {
-                        let req_id = request.id.clone();
-                        self.notify(request);
-                        #[cfg(sozu_verif)]
-                        self.verif_worker_cmd(&verif_cmd.0, &verif_cmd.1, verif_cmd.2);
-                        // The answers to the requests read before this one are
-                        // still queued and the loop that flushes the queue ends
-                        // here: write them out before the final answer.
-                        QUEUE.with(|queue| {
-                            for response in queue.borrow_mut().drain(..) {
-                                if let Err(e) = self.channel.write_message(&response) {
-                                    error!("Could not write response to the main process: {}", e);
-                                }
-                            }
-                        });
-                        if let Err(e) = self.channel.write_message(&WorkerResponse::ok(req_id)) {
-                            error!("Could not send ok response to the main process: {}", e);
-                        }
-                        if let Err(e) = self.channel.run() {
-                            error!("Error while running the server channel: {}", e);
-                        }
-                        return true;
-                    }
-                    Some(RequestType::SoftStop(_)) => {
-                        if self.shutting_down.is_some() {
-                            // Only one request id can be acknowledged when the
-                            // last session is gone: overwriting it would leave
-                            // the first soft stop without a final answer.
-                            push_queue(worker_response_error(
-                                request.id,
-                                "a soft stop is already in progress",
-                            ));
-                        } else {
-                            self.shutting_down = Some(request.id.clone());
-                            self.last_sessions_len = self.sessions.borrow().slab.len();
+                    #[cfg(sozu_verif)]
+                    let verif_cmd = (
+                        request.id.clone(),
+                        request.content.short_name().to_owned(),
+                        QUEUE.with(|queue| queue.borrow().len()),
+                    );
+                    match request.content.request_type {
+                        Some(RequestType::HardStop(_)) => {
+                            let req_id = request.id.clone();
                             self.notify(request);
+                            #[cfg(sozu_verif)]
+                            self.verif_worker_cmd(&verif_cmd.0, &verif_cmd.1, verif_cmd.2);
+                            // The answers to the requests read before this one are
+                            // still queued and the loop that flushes the queue ends
+                            // here: write them out before the final answer.
+                            QUEUE.with(|queue| {
+                                for response in queue.borrow_mut().drain(..) {
+                                    if let Err(e) = self.channel.write_message(&response) {
+                                        error!(
+                                            "Could not write response to the main process: {}",
+                                            e
+                                        );
+                                    }
+                                }
+                            });
+                            if let Err(e) = self.channel.write_message(&WorkerResponse::ok(req_id))
+                            {
+                                error!("Could not send ok response to the main process: {}", e);
+                            }
+                            if let Err(e) = self.channel.run() {
+                                error!("Error while running the server channel: {}", e);
+                            }
+                            return true;
                         }
-                    }
-                    Some(RequestType::ReturnListenSockets(_)) => {
-                        info!("received ReturnListenSockets order");
-                        match self.return_listen_sockets() {
-                            Ok(_) => push_queue(WorkerResponse::ok(request.id)),
-                            Err(error) => push_queue(worker_response_error(
-                                request.id,
-                                format!("Could not send listeners on scm socket: {error:?}"),
-                            )),
+                        Some(RequestType::SoftStop(_)) => {
+                            if self.shutting_down.is_some() {
+                                // Only one request id can be acknowledged when the
+                                // last session is gone: overwriting it would leave
+                                // the first soft stop without a final answer.
+                                push_queue(worker_response_error(
+                                    request.id,
+                                    "a soft stop is already in progress",
+                                ));
+                            } else {
+                                self.shutting_down = Some(request.id.clone());
+                                self.last_sessions_len = self.sessions.borrow().slab.len();
+                                self.notify(request);
+                            }
                         }
+                        Some(RequestType::ReturnListenSockets(_)) => {
+                            info!("received ReturnListenSockets order");
+                            match self.return_listen_sockets() {
+                                Ok(_) => push_queue(WorkerResponse::ok(request.id)),
+                                Err(error) => push_queue(worker_response_error(
+                                    request.id,
+                                    format!("Could not send listeners on scm socket: {error:?}"),
+                                )),
+                            }
+                        }
+                        _ => self.notify(request),
                     }
-                    _ => self.notify(request),
-                }
-                #[cfg(sozu_verif)]
-                self.verif_worker_cmd(&verif_cmd.0, &verif_cmd.1, verif_cmd.2);
+                    #[cfg(sozu_verif)]
+                    self.verif_worker_cmd(&verif_cmd.0, &verif_cmd.1, verif_cmd.2);
                 }
                 // Not an error per se, occurs when there is nothing to read
                 Err(_) => {
@@ -2413,7 +2422,13 @@ impl Server {
                     Err(_) => WorkerResponse::error(req_id, "Wrong variant ListenerType"),
                 };
                 for token in listen_tokens {
-                    if self.sessions.borrow_mut().slab.try_remove(token.0).is_some() {
+                    if self
+                        .sessions
+                        .borrow_mut()
+                        .slab
+                        .try_remove(token.0)
+                        .is_some()
+                    {
                         info!("removed listen token {:?}", token);
                     }
                     // the slot may be reused by a session from now on: a pending
@@ -3317,7 +3332,10 @@ impl Server {
                 let to_evict = (self.sessions.borrow().max_connections / 100).max(1);
                 let evicted = self.evict_least_active_sessions(to_evict);
                 #[cfg(sozu_verif)]
-                crate::verif::emit("evict", &[("asked", to_evict as i64), ("evicted", evicted as i64)]);
+                crate::verif::emit(
+                    "evict",
+                    &[("asked", to_evict as i64), ("evicted", evicted as i64)],
+                );
                 if evicted == 0 {
                     // Informational, not an invariant break: the worker may
                     // be at boot, or every active session is a system
@@ -3397,7 +3415,10 @@ impl Server {
                 &[
                     ("port", _peer.map(|p| p.port() as i64).unwrap_or(-1)),
                     ("token", verif_token as i64),
-                    ("present", self.sessions.borrow().slab.contains(verif_token) as i64),
+                    (
+                        "present",
+                        self.sessions.borrow().slab.contains(verif_token) as i64,
+                    ),
                     ("slab", self.sessions.borrow().slab.len() as i64),
                 ],
             );
